@@ -24,6 +24,11 @@ CHECKS = {
   text="Generated-input search at two levels. Unit: arbitrary validator rule lists, type names and JSON5 property bags are pushed through the real swagen.GenerateSpec (3.0 and 3.1) and the annotation/security helpers; the call must return bytes or an error, never panic. Process: generated projects decorated with unsupported constructs, malformed annotations and configs are run through the real CLI binary under a time limit; outcome must be exit 0 with artefacts or non-zero with a message, never a Go panic. Sampling; hangs are only observable as time-outs (reported inconclusive).",
   note="Trusts: rapid; intermediate metadata fabricated for the unit level is restricted to shapes the validators let through; a timeout is reported as inconclusive, not as a violation.",
   ref="6/C14"),
+ "C01": dict(
+  technique="model-based property testing with rapid: generated project model -> rendered Go module -> real pipeline + both emitters -> compare documented operations with the model",
+  text="Generated-input search over whole projects: a structured model (controllers over several packages/files, verbs, route templates with slash noise and URL parameters, hidden/deprecated flags, decoy methods) is rendered to a Go module and analysed by the real gleece pipeline in-process; the set of (verb, path) operations of both the 3.0 and 3.1 documents must equal the non-hidden annotated routes predicted by the model, with operationId, tag and deprecation flag. Both inclusions (invented / dropped) are checked. Sampling of an unbounded project space.",
+  note="Trusts: rapid; the renderer and the reference predictions in internal/projgen (path normalisation is the statement's: concatenate and collapse slashes); generator preconditions listed in the evidence assumptions. In-process execution uses the CLI's own entry points.",
+  ref="6/C01"),
 }
 
 NOT_APPLICABLE = []
